@@ -252,7 +252,8 @@ class _Rec:
 
     def problems(self):
         self._pump()
-        out = [p for p in self.sim.problems if p[0] != "unrecognised-statement"]
+        # savepoint names are per Connection: with reset None a carried-over transaction may legitimately see the same name again
+        out = [p for p in self.sim.problems if p[0] not in ("unrecognised-statement", "duplicate-savepoint-name")]
         out += [("use-after-close",) + tuple(map(str, x)) for x in self.db.use_after_close]
         return out
 
